@@ -15,7 +15,7 @@ from pyvc.speclib import (AND, OR, NOT, IMPLIES, IFF, ITE, EQ, IS_NONE, VAL, ISI
 from pyvc import speclib
 from pyvc import settheory as st
 from pyvc.settheory import (modset, padset, sumset, kfold_s, rangefold, singleton, SETEQ, MEM, SMIN, SMAX, WFSET, ALIGNED)
-from .common import (SERIALIZABLE, COMPOSITE, SERVICE, DELIMITED, PRIMITIVE, VOID_T, UNSIGNED_T, ATTRIBUTE, FIELD, PADDING,
+from .common import (VersionK, SERIALIZABLE, COMPOSITE, SERVICE, DELIMITED, PRIMITIVE, VOID_T, UNSIGNED_T, ATTRIBUTE, FIELD, PADDING,
                      CASTMODE, TRUNCATED, cast_mode_ord, POW2)
 from .c01 import D, BLS
 from . import c01  # noqa: the BitLengthSet contracts are used at every call site
@@ -28,7 +28,7 @@ FIXED = SER + "_array.FixedLengthArrayType"
 VARIABLE = SER + "_array.VariableLengthArrayType"
 STRUCT = SER + "_composite.StructureType"
 UNION = SER + "_composite.UnionType"
-LEAN = ["Basic.lean", "Bounds.lean"]
+LEAN = ["Basic.lean", "Bounds.lean", "Layout.lean"]
 
 
 # ------------------------------------------------------------------------------------------------ the Specification
@@ -165,7 +165,14 @@ def WFT(t):
 
 
 def EXTENT(t):
+    """Ghost: the extent of a composite.  Sealed composites: the longest representation; delimited: the declared one.
+    (Formula for an object under construction, uninterpreted ghost of the reference - defined by the class invariant -
+    for an abstract object.)"""
     if smt():
+        if t.fields is not None and t.cls.name in ("StructureType", "UnionType"):
+            return SMAX(L(t))
+        if t.fields is not None and t.cls.name == "DelimitedType":
+            return st._i(t._extent)
         return speclib.CTX.engine.uf("ghost!extent", RefSort, z3.IntSort())(t.ref)
     return t.extent
 
@@ -182,8 +189,11 @@ def _ghost_def(self):
 @class_spec(SERIALIZABLE)
 class _SerializableSpec:
     fields = {}
+    whole_object = ["wft"]
 
-    def invariant(self):
+    def invariant(self, skip=()):
+        if "wft" in skip:
+            return {}
         return {"wft": OR(ISINST(self, "ServiceType"), lambda: WFT(self))}
 
 
@@ -277,7 +287,8 @@ class _DelimitedSpec:
              "extent": AND(EXTENT(self) == self._extent, self._extent >= 0, st.pmod(st._i(self._extent), 8) == 0
                            if smt() else self._extent % 8 == 0, self._extent >= EXTENT(self._inner)),
              "inner-not-service": NOT(ISINST(self._inner, "ServiceType", "DelimitedType")),
-             "header": AND(self._delimiter_header_type._bit_length == 32, cast_mode_ord(self._delimiter_header_type) == TRUNCATED)}
+             "header": AND(self._delimiter_header_type._bit_length == 32, cast_mode_ord(self._delimiter_header_type) == TRUNCATED),
+             "fields-serializable": _fields_ok(self)}
         d.update(_ghost_def(self))
         return d
 
@@ -360,10 +371,9 @@ inline_ok(ARRAY + ".element_type", ARRAY + ".capacity", VARIABLE + ".length_fiel
 @contract(ARRAY + ".__init__", props=P + ["C05"])
 class _ArrayInit:
     params = dict(element_type=ObjOf(SERIALIZABLE), capacity=Int)
-    raises = {"InvalidNumberOfElementsError": lambda s: s.capacity < 1}
-
-    def pre(s):
-        return {"element-serializable": NOT(ISINST(s.element_type, "ServiceType"))}
+    raises = {"InvalidNumberOfElementsError": lambda s: s.capacity < 1,
+              # a service type has no layout (its bit_length_set raises TypeError): not an element type
+              "InvalidElementTypeError": lambda s: ISINST(s.element_type, "ServiceType")}
 
     def post(s):
         return {"fields": AND(s.self._element_type.ref == s.element_type.ref if smt() else s.self._element_type is s.element_type,
@@ -373,10 +383,8 @@ class _ArrayInit:
 @contract(FIXED + ".__init__", props=P + ["C05"])
 class _FixedInit:
     params = dict(element_type=ObjOf(SERIALIZABLE), capacity=Int)
-    raises = {"InvalidNumberOfElementsError": lambda s: s.capacity < 1}
-
-    def pre(s):
-        return {"element-serializable": NOT(ISINST(s.element_type, "ServiceType"))}
+    raises = {"InvalidNumberOfElementsError": lambda s: s.capacity < 1,
+              "InvalidElementTypeError": lambda s: ISINST(s.element_type, "ServiceType")}
 
     def post(s):
         return {"fields": s.self._capacity == s.capacity}
@@ -386,12 +394,12 @@ class _FixedInit:
 class _VariableInit:
     params = dict(element_type=ObjOf(SERIALIZABLE), capacity=Int)
     raises = {"InvalidNumberOfElementsError": lambda s: s.capacity < 1,
+              "InvalidElementTypeError": lambda s: ISINST(s.element_type, "ServiceType"),
               # a capacity that no 64-bit length prefix can hold
               "InvalidBitLengthError": lambda s: s.capacity >= 2 ** 64}
 
     def pre(s):
-        return {"element-serializable": NOT(ISINST(s.element_type, "ServiceType")),
-                "engine-domain": s.capacity < 2 ** 128}
+        return {"engine-domain": s.capacity < 2 ** 128}
 
     def post(s):
         return {"fields": s.self._capacity == s.capacity}
@@ -411,7 +419,7 @@ for _cls in (UNSIGNED_T, "pydsdl._serializable._primitive.IntegerType"):
 @contract(COMPOSITE + ".__init__", props=["C05"])
 class _CompositeInitAssumed:
     """Names, versions, port-IDs, aggregation: the subject of C05.  Used here: it stores the attributes as given."""
-    params = dict(name=Str, attributes=SeqOf(ObjOf(ATTRIBUTE)), deprecated=Bool, fixed_port_id=Opt(Int),
+    params = dict(name=Str, version=VersionK, attributes=SeqOf(ObjOf(ATTRIBUTE)), deprecated=Bool, fixed_port_id=Opt(Int),
                   source_file_path=Str, has_parent_service=Bool, doc=Str)
     verify = False
     assumed = "CompositeType.__init__ is the subject of C05 (every check is stated and verified there)"
@@ -420,14 +428,20 @@ class _CompositeInitAssumed:
 
     def post(s):
         return {"attributes-stored": _seq_same_refs(s.self._attributes, s.attributes),
-                "fields-serializable": FORALL_IDX(FIELDS(s.self), lambda i, f: NOT(ISINST(f._data_type, "ServiceType")))}
+                # ServiceType._check_aggregation always reports a failure and CompositeType.__init__ raises
+                # AggregationError for any attribute whose type fails the aggregation check (verified under C05)
+                "service-types-rejected": FORALL_IDX(s.attributes, lambda i, a: NOT(ISINST(a._data_type, "ServiceType"))),
+                "scalars-stored": AND(EQ(s.self._version, s.version), IFF(s.self._deprecated, s.deprecated),
+                                      EQ(s.self._fixed_port_id, s.fixed_port_id),
+                                      IFF(s.self._has_parent_service, s.has_parent_service))}
 
 
 def _seq_same_refs(a, b):
+    """`a` is an element-wise copy of `b` (lists are modelled as total index functions plus a length; a copy shares both)"""
     if smt():
-        if isinstance(b, SymSeq):
-            return AND(a.length == b.length, FORALL_IDX(a, lambda i, x: x.ref == z3.Select(b.arr, i)))
-        return True
+        if isinstance(b, SymSeq) and isinstance(a, SymSeq):
+            return AND(a.length == b.length, a.arr == b.arr)
+        raise speclib.V.EngineLimit("attributes given as a concrete list")
     return list(a) == list(b)
 
 
@@ -446,10 +460,18 @@ class _StructAggregate:
 @loop_invariant(STRUCT + ".aggregate_bit_length_sets", loop=0)
 def _inv_struct_aggregate(s):
     ft = s.field_types
-    # after i iterations over field_types[1:], the first i+1 fields are folded
-    return {"prefix-folded": SETEQ(D(s.bls), SymSet(st.sfold_f(st.lmap_f(ft.arr), st.amap_f(ft.arr), s.i + 1))),
-            "unfold-next": st.sfold_unfold(st.lmap_f(ft.arr), st.amap_f(ft.arr), s.i + 1),
-            "unfold-first": st.sfold_unfold(st.lmap_f(ft.arr), st.amap_f(ft.arr), z3.IntVal(0))}
+    # after i iterations over field_types[1:], the first i+1 fields are folded (none if there is no field at all)
+    n = ITE(LEN(ft) == 0, 0, s.i + 1)
+    return {"prefix-folded": SETEQ(D(s.bls), SymSet(st.sfold_f(st.lmap_f(ft.arr), st.amap_f(ft.arr), st._i(n))))}
+
+
+def _struct_aggregate_triggers(s):
+    ft = s.field_types
+    F, M = st.lmap_f(ft.arr), st.amap_f(ft.arr)
+    return [st.sfold_unfold(F, M, s.i + 1), st.sfold_unfold(F, M, s.i), st.sfold_unfold(F, M, 0)]
+
+
+_inv_struct_aggregate.triggers = _struct_aggregate_triggers
 
 
 @contract(UNION + "._compute_tag_bit_length", props=P + ["C16"])
@@ -480,21 +502,28 @@ class _UnionAggregate:
                 "degenerate-one": IMPLIES(n == 1, lambda: SETEQ(D(s.result), L(AT(s.field_types, 0))))}
 
 
+def _attr_fields_serializable(s):
+    # domain of the property: serializable field types (a ServiceType is not serializable and never a field type of a
+    # type that pydsdl builds: DataTypeBuilder only wraps request/response into ServiceType at the very end)
+    return FORALL_IDX(FILTER(s.attributes, lambda a: ISINST(a, "Field")), lambda i, f: NOT(ISINST(f._data_type, "ServiceType")))
+
+
+_COMPOSITE_PARAMS = dict(name=Str, version=VersionK, attributes=SeqOf(ObjOf(ATTRIBUTE)), deprecated=Bool, fixed_port_id=Opt(Int),
+                         source_file_path=Str, has_parent_service=Bool, doc=Str)
+_COMPOSITE_RAISES = {"InvalidNameError": None, "InvalidVersionError": None, "AttributeNameCollisionError": None,
+                     "InvalidFixedPortIDError": None, "AggregationError": None}
+
+
 @contract(STRUCT + ".__init__", props=P)
 class _StructInit:
-    params = dict(name=Str, attributes=SeqOf(ObjOf(ATTRIBUTE)), deprecated=Bool, fixed_port_id=Opt(Int),
-                  source_file_path=Str, has_parent_service=Bool, doc=Str)
-    raises = {"InvalidNameError": None, "InvalidVersionError": None, "AttributeNameCollisionError": None,
-              "InvalidFixedPortIDError": None, "AggregationError": None}
+    params = _COMPOSITE_PARAMS
+    raises = dict(_COMPOSITE_RAISES)
 
 
 @contract(UNION + ".__init__", props=P)
 class _UnionInit:
-    params = dict(name=Str, attributes=SeqOf(ObjOf(ATTRIBUTE)), deprecated=Bool, fixed_port_id=Opt(Int),
-                  source_file_path=Str, has_parent_service=Bool, doc=Str)
-    raises = {"InvalidNameError": None, "InvalidVersionError": None, "AttributeNameCollisionError": None,
-              "InvalidFixedPortIDError": None, "AggregationError": None,
-              "MalformedUnionError": lambda s: LEN(FILTER(s.attributes, lambda a: ISINST(a, "Field"))) < 2}
+    params = _COMPOSITE_PARAMS
+    raises = dict(_COMPOSITE_RAISES, MalformedUnionError=lambda s: LEN(FILTER(s.attributes, lambda a: ISINST(a, "Field"))) < 2)
 
 
 @contract(DELIMITED + ".__init__", props=P + ["C05", "C14"])
